@@ -314,6 +314,12 @@ fn run_nop_one(out: &mut CaseOut, sc: &Scen, key: &str, h: &[Ev], reserved: &[St
     let mut sim = match Sim::new_with_files(&sc.cfg, files_map(&sc.files)) {
         Ok(s) => s,
         Err(e) => {
+            // A configuration that asks for a reserved code to be *typed* may be refused: nothing
+            // reaches the OS then. The control key must still be accepted (the path must exist).
+            if !is_control && sc.family.starts_with("zippy-output-mapping") {
+                out.inc("noppath_reserved_output_refused_by_parser");
+                return false;
+            }
             out.inc("noppath_configs_rejected");
             out.violate(
                 format!("C11:nop-path:config-rejected:{}", sc.family),
